@@ -88,6 +88,40 @@ type simNode struct {
 	downProj *pNodeState
 	// peers that completed an identity handshake with this incarnation
 	peers map[uint64]bool
+	// snapshot goroutine control (gates at the verif hooks snapG.ask / snapG.store)
+	snapPhase string
+	gate      *simGate
+}
+
+type simGate struct {
+	mu      sync.Mutex
+	at      string // hook point the goroutine is parked at ("" = running)
+	release chan struct{}
+}
+
+func (g *simGate) park(point string) {
+	g.mu.Lock()
+	g.at = point
+	ch := make(chan struct{})
+	g.release = ch
+	g.mu.Unlock()
+	<-ch
+}
+
+func (g *simGate) parkedAt() string {
+	g.mu.Lock()
+	defer g.mu.Unlock()
+	return g.at
+}
+
+func (g *simGate) open() {
+	g.mu.Lock()
+	ch := g.release
+	g.at, g.release = "", nil
+	g.mu.Unlock()
+	if ch != nil {
+		close(ch)
+	}
 }
 
 type simCluster struct {
@@ -298,6 +332,14 @@ func (c *simCluster) onHook(point string, args ...interface{}) {
 		c.mu.Unlock()
 		c.rpcs = append(c.rpcs, rpc)
 	}
+	if point == "snapG.ask" || point == "snapG.store" {
+		if id, ok := c.hookNode(args...); ok {
+			if n := c.nodes[id]; n != nil && n.gate != nil {
+				n.gate.park(point) // runs in the snapshot goroutine: blocks until the schedule releases it
+			}
+		}
+		return
+	}
 	if point == "leader.flushed" {
 		// the commit decision: the voters of the configuration in force at this instant (C06)
 		r := args[0].(*Raft)
@@ -435,6 +477,7 @@ func (n *simNode) startWith(r *Raft) {
 	n.up = true
 	n.died, n.stopped = "", ""
 	n.downProj = nil
+	n.snapPhase, n.gate = "idle", &simGate{}
 	n.peers = make(map[uint64]bool)
 	r.dialFn = c.dialFnFor(n.id)
 	for _, id := range c.ids {
@@ -497,9 +540,9 @@ func (n *simNode) event(fn func()) {
 				n.downProj = nil
 				return
 			}
-			n.died = fmt.Sprintf("%v", v)
+			n.died = "raft"
 			st := string(debug.Stack())
-			c.note(map[string]interface{}{"kind": "panic", "n": n.id, "text": n.died, "stack": trimStack(st)})
+			c.note(map[string]interface{}{"kind": "panic", "n": n.id, "text": fmt.Sprintf("%v", v), "stack": trimStack(st)})
 			n.kill()
 		}
 	}()
@@ -620,16 +663,36 @@ type simFSM struct {
 }
 
 func (f *simFSM) Update(cmd []byte) interface{} {
-	id, err := strconv.Atoi(string(cmd))
-	if err != nil {
-		id = -1
-	}
+	id := parseCmd(cmd)
 	f.cmds = append(f.cmds, id)
 	return len(f.cmds)
 }
 
 func (f *simFSM) Read(cmd interface{}) interface{} {
 	return append([]int{}, f.cmds...)
+}
+
+// an update command is "<id> <padding>": the padding makes log segments roll over every few entries
+func parseCmd(cmd []byte) int {
+	txt := string(cmd)
+	if i := strings.IndexByte(txt, ' '); i >= 0 {
+		txt = txt[:i]
+	}
+	id, err := strconv.Atoi(txt)
+	if err != nil {
+		return -1
+	}
+	return id
+}
+
+const simUpdBytes = 300
+
+func makeCmd(id int) []byte {
+	b := []byte(strconv.Itoa(id) + " ")
+	for len(b) < simUpdBytes {
+		b = append(b, 'x')
+	}
+	return b
 }
 
 type simFSMState struct{ cmds []int }
@@ -670,8 +733,8 @@ func (n *simNode) fsmDispatch(t interface{}) {
 				panic(hs)
 			}
 			// a panic in the FSM goroutine is not recovered by the library: the process dies
-			n.died = fmt.Sprintf("fsm goroutine: %v", v)
-			n.c.note(map[string]interface{}{"kind": "panic", "n": n.id, "text": n.died, "stack": trimStack(string(debug.Stack()))})
+			n.died = "fsm"
+			n.c.note(map[string]interface{}{"kind": "panic", "n": n.id, "text": fmt.Sprintf("fsm goroutine: %v", v), "stack": trimStack(string(debug.Stack()))})
 			n.kill()
 		}
 	}()
@@ -683,6 +746,7 @@ func (n *simNode) fsmDispatch(t interface{}) {
 		t.ne.reply(resp)
 	case fsmSnapReq:
 		fsm.onSnapReq(t)
+		n.snapAfterFsm()
 	case fsmRestoreReq:
 		err := fsm.onRestoreReq()
 		t.err <- err
